@@ -55,6 +55,25 @@ structure Server where
   adv : List Cap
   enabled : List Cap
 
+/-- what the server says over time, as far as it changes what the client may send -/
+inductive SrvEv where
+  /-- a capability list (greeting code, untagged CAPABILITY, code of a tagged OK): it replaces the
+      previous one (RFC 9051 §7.2.2: the list is the complete current set) -/
+  | advertised (l : List Cap)
+  /-- `* ENABLED …` (RFC 5161 §3.2): these extensions are now on -/
+  | enabledResp (l : List Cap)
+  /-- tagged OK to UNAUTHENTICATE: "the server resets … any extensions enabled" (RFC 8437 §3) -/
+  | unauthenticated
+deriving DecidableEq, Repr
+
+def Server.after (srv : Server) : SrvEv → Server
+  | .advertised l => { srv with adv := l }
+  | .enabledResp l => { srv with enabled := srv.enabled ++ l }
+  | .unauthenticated => { srv with enabled := [] }
+
+/-- the server's state when the command is written: everything it said before, in order -/
+def Server.afterAll (srv : Server) (evs : List SrvEv) : Server := evs.foldl Server.after srv
+
 /-- RFC 7888: `{n+}` with LITERAL+ for any n; with LITERAL- (also part of IMAP4rev2) for n ≤ 4096 -/
 def nonSyncLegal (srv : Server) (n : Nat) : Bool :=
   srv.adv.any isLiteralPlus || ((srv.adv.any isLiteralMinus || srv.adv.any isRev2) && n ≤ 4096)
